@@ -13,7 +13,8 @@
 // Output: one line per scenario run and target
 //
 //	conn.scen \t seed:n \t scenario \t target-index \t params \t phase \t phase ...
-//	phase := act=<action>;ev=<A1.R1.A2|->;live=<ids|->;rpc=<id:cap:epoch:set,..|->;srv=<served>:<open>:<turned away>;to=<0|1>;ms=<elapsed>
+//	phase := act=<action>;sd=<us>;ev=<A1.R1.A2|->;live=<ids|->;rpc=<id:cap:epoch:set,..|->;srv=<served>:<open>:<turned away>;to=<0|1>;ms=<elapsed>
+//	(sd = time the device lets pass between accepting a transport connection and serving it, in microseconds)
 //
 // ids are the manager's connection ids renamed 1,2,3.. in order of first appearance (per manager); A = first delivery of
 // an id on the watch (added), R = second (removed), X = any further one.  `to=1`: the awaited condition did not come
@@ -412,21 +413,26 @@ func (w *world) probe(ti int) (string, string) {
 			rs = append(rs, fmt.Sprintf("%d:gone:e0:gone", id))
 			continue
 		}
-		ctx, cancel := context.WithTimeout(context.Background(), time.Second)
-		capr, err := c.Capabilities(ctx, &gpb.CapabilityRequest{})
-		cancel()
-		cs, ep := "ok", "e0"
-		if err != nil {
-			cs = "fail"
-		} else {
-			ep = capr.GNMIVersion
+		cs, ep, ss := "fail", "e0", "fail"
+		for try := 0; try < 2 && cs == "fail"; try++ {
+			ctx, cancel := context.WithTimeout(context.Background(), 3*time.Second)
+			capr, err := c.Capabilities(ctx, &gpb.CapabilityRequest{})
+			cancel()
+			if err == nil {
+				cs, ep = "ok", capr.GNMIVersion
+			} else {
+				time.Sleep(50 * time.Millisecond)
+			}
 		}
-		ctx, cancel = context.WithTimeout(context.Background(), time.Second)
-		_, err = c.Set(ctx, &gpb.SetRequest{})
-		cancel()
-		ss := "ok"
-		if err != nil {
-			ss = "fail"
+		for try := 0; try < 2 && ss == "fail"; try++ {
+			ctx, cancel := context.WithTimeout(context.Background(), 3*time.Second)
+			_, err := c.Set(ctx, &gpb.SetRequest{})
+			cancel()
+			if err == nil {
+				ss = "ok"
+			} else {
+				time.Sleep(50 * time.Millisecond)
+			}
 		}
 		rs = append(rs, fmt.Sprintf("%d:%s:%s:%s", id, cs, ep, ss))
 	}
@@ -474,8 +480,11 @@ func (w *world) phase(act []string, do func(), cond func() bool, bound time.Dura
 		}
 		live, rpc := w.probe(ti)
 		s, o, r := w.devs[ti].view()
-		w.phases[ti] = append(w.phases[ti], fmt.Sprintf("act=%s;ev=%s;live=%s;rpc=%s;srv=%d:%d:%d;to=%d;ms=%d",
-			act[ti], dash(strings.Join(es, ".")), live, rpc, s, o, r, to, ms))
+		w.devs[ti].mu.Lock()
+		sd := w.devs[ti].serveDelay.Microseconds()
+		w.devs[ti].mu.Unlock()
+		w.phases[ti] = append(w.phases[ti], fmt.Sprintf("act=%s;sd=%d;ev=%s;live=%s;rpc=%s;srv=%d:%d:%d;to=%d;ms=%d",
+			act[ti], sd, dash(strings.Join(es, ".")), live, rpc, s, o, r, to, ms))
 	}
 }
 
@@ -502,7 +511,7 @@ func (w *world) step(acts ...action) {
 	before := make([][]int, n)
 	servedBefore := make([]int, n)
 	names := make([]string, n)
-	bound := 4 * time.Second
+	bound := 2500 * time.Millisecond
 	for i := 0; i < n; i++ {
 		before[i] = w.live(i)
 		servedBefore[i], _, _ = w.devs[i].view()
